@@ -490,3 +490,213 @@ class E9Project(Engine):
             c = copy.deepcopy(case)
             c["port"] = "COM1"
             yield c
+
+
+# ====================================================================== C10
+
+
+def promotion_script(rng) -> str:
+    """Scripts rich in names that are first assigned inside branches / loops / try bodies and in
+    injected housekeeping (several buttons, several animated LCDs, several ultrasonic sensors):
+    the places where the transpiler iterates over sets."""
+
+    lines = [
+        "from Reduino import target", 'target("COM3")', "from Reduino.Communication import SerialMonitor",
+        "from Reduino.Sensors import Button, Potentiometer, Ultrasonic", "from Reduino.Displays import LCD",
+        'mon = SerialMonitor(9600, "COM3")', 'pot = Potentiometer("A0")',
+    ]
+    names = ["alpha", "beta", "gamma", "delta", "eps", "zeta", "eta", "theta", "iota", "kappa", "lam", "mu", "nu", "xi", "omi", "pi2", "rho", "sig", "tau", "ups"]
+    rng.shuffle(names)
+    pool = iter(names)
+
+    def take(k):
+        return [next(pool) for _ in range(k)]
+
+    n_btn = rng.choice([0, 2, 3])
+    for i in range(n_btn):
+        lines.append(f"{rng.choice(['bt', 'key', 'sw'])}{i}{rng.choice('abcxyz')} = Button({2 + i})")
+    btn_names = [l.split(" = ")[0] for l in lines if "= Button(" in l]
+    n_us = rng.choice([0, 2])
+    for i in range(n_us):
+        lines.append(f"{rng.choice(['us', 'sonar', 'dist'])}{i}{rng.choice('abcxyz')} = Ultrasonic({20 + 2 * i}, {21 + 2 * i})")
+    us_names = [l.split(" = ")[0] for l in lines if "= Ultrasonic(" in l]
+    n_lcd = rng.choice([0, 2])
+    for i in range(n_lcd):
+        nm = f"{rng.choice(['lcd', 'panel', 'disp'])}{i}{rng.choice('abcxyz')}"
+        lines.append(f"{nm} = LCD(i2c_addr={0x20 + i}, cols=16, rows=2)")
+        lines.append(f'{nm}.animate("{rng.choice(["scroll", "blink", "typewriter", "bounce"])}", {i % 2}, "text{i}", speed_ms=100, loop=True)')
+
+    def body(depth: int, k: int) -> List[str]:
+        out = []
+        for nm in take(k):
+            kind = rng.choice(["int", "float", "str", "bool"])
+            val = {"int": str(rng.randint(0, 9)), "float": "1.5", "str": '"s"', "bool": "True"}[kind]
+            out.append("    " * depth + f"{nm} = {val}")
+        return out
+
+    for _ in range(rng.randint(1, 3)):
+        shape = rng.choice(["if", "ifelse", "while", "for", "try"])
+        try:
+            if shape == "if":
+                lines.append("if pot.read() > 5:")
+                lines += body(1, rng.randint(2, 4))
+            elif shape == "ifelse":
+                k = rng.randint(2, 3)
+                same = take(k)
+                lines.append("if pot.read() > 5:")
+                order1 = list(same)
+                rng.shuffle(order1)
+                lines += [f"    {nm} = 1" for nm in order1]
+                lines.append("else:")
+                order2 = list(same)
+                rng.shuffle(order2)
+                lines += [f"    {nm} = 2" for nm in order2]
+            elif shape == "while":
+                c = next(pool)
+                lines.append(f"{c} = 0")
+                lines.append(f"while {c} < 2:")
+                lines.append(f"    {c} += 1")
+                lines += body(1, rng.randint(2, 4))
+                if rng.random() < 0.5:
+                    lines.append("    if pot.read() > 100:")
+                    lines += body(2, 2)
+            elif shape == "for":
+                lines.append(f"for idx{rng.randint(0, 9)} in range(3):")
+                lines += body(1, rng.randint(2, 4))
+            else:
+                lines.append("try:")
+                lines += body(1, rng.randint(2, 3))
+                lines.append("except ValueError:")
+                lines += body(1, 2)
+        except StopIteration:
+            break
+    lines.append("while True:")
+    for b in btn_names:
+        lines.append(f"    if {b}.is_pressed():")
+        lines.append(f'        mon.write("{b}")')
+    for u in us_names:
+        lines.append(f"    mon.write({u}.measure_distance())")
+    try:
+        lines.append("    if pot.read() > 7:")
+        lines += body(2, rng.randint(2, 4))
+    except StopIteration:
+        lines.append("        pass")
+    lines.append("    mon.write(pot.read())")
+    return "\n".join(lines) + "\n"
+
+
+class E9Determinism(Engine):
+    name = "e9-determinism"
+    property_id = "C10"
+    components_real = ["transpile.parser.parse", "transpile.emitter.emit (fresh interpreters and shared interpreters)"]
+    components_stub = []
+    assumptions = ["thread-level interleavings are not explored: the property speaks of call sequences"]
+    rule = (
+        "each case = 4-8 seeded scripts (promotion-heavy shapes + core-language programs + actuator histories) "
+        "transpiled in fresh interpreters under PYTHONHASHSEED in {0,1,2,3 + seeded values} and under seeded call "
+        "histories in one interpreter (parse A, parse B, emit B, emit A; repeats; unrelated scripts in between); "
+        "all sha256 digests of a script must be equal; non-trivial = every script accepted by the transpiler; "
+        "distinct = digest of the script set"
+    )
+
+    def generate(self, rng, tier: str, avoid) -> dict:
+        from dst.gen.actuators import ActGen
+        from dst.gen.programs import GenOptions, ProgGen
+
+        scripts = []
+        for _ in range(rng.randint(4, 8)):
+            r = rng.random()
+            if r < 0.55:
+                scripts.append(promotion_script(rng))
+            elif r < 0.85:
+                scripts.append(ProgGen(rng, avoid, GenOptions(max_stmts=rng.choice([8, 16, 24]))).generate())
+            else:
+                scripts.append(ActGen(rng, avoid, tier).generate())
+        n_seeds = 4 if tier == "quick" else 28
+        hash_seeds = [0, 1, 2, 3] + [rng.randint(4, 4294967295) for _ in range(n_seeds)]
+        n = len(scripts)
+        histories = []
+        # sequential reference
+        histories.append([["both", i] for i in range(n)])
+        # interleaved parse/emit, emits in another order, repeated calls
+        order = list(range(n))
+        rng.shuffle(order)
+        h = [["parse", i] for i in order]
+        order2 = list(order)
+        rng.shuffle(order2)
+        h += [["emit", i] for i in order2]
+        h += [["emit", i] for i in order[:2]]
+        h += [["both", rng.choice(order)] for _ in range(2)]
+        histories.append(h)
+        # reversed sequential
+        histories.append([["both", i] for i in reversed(range(n))])
+        return {"scripts": scripts, "hash_seeds": hash_seeds, "histories": histories}
+
+    def execute(self, case: dict) -> Outcome:
+        import json
+        import os
+        import sys
+
+        from dst.core.common import REPO, VERIF
+
+        job_base = {"scripts": case["scripts"]}
+        seen: Dict[str, Dict[str, str]] = {}
+        runs = 0
+        plan = []
+        for hs in case["hash_seeds"]:
+            plan.append((hs, 0))
+        for k in range(1, len(case["histories"])):
+            plan.append((case["hash_seeds"][k % len(case["hash_seeds"])], k))
+        for hs, hidx in plan:
+            env = dict(os.environ, PYTHONHASHSEED=str(hs), PYTHONPATH=str(VERIF), VERIF_REPO=str(REPO))
+            job = dict(job_base, history=case["histories"][hidx])
+            proc = subprocess.run(
+                [sys.executable, "-m", "dst.pc.transpile_worker"], input=json.dumps(job), capture_output=True, text=True,
+                env=env, cwd=str(VERIF), timeout=600,
+            )
+            if proc.returncode != 0:
+                raise RuntimeError(f"transpile worker failed: {proc.stderr[-800:]}")
+            runs += 1
+            out = json.loads(proc.stdout)["digests"]
+            for i, ds in out.items():
+                for d in ds:
+                    label = f"hashseed={hs} history={hidx}"
+                    seen.setdefault(i, {}).setdefault(d, label)
+        for i in sorted(seen, key=int):
+            if len(seen[i]) > 1:
+                variants = sorted(seen[i].items(), key=lambda kv: kv[1])
+                return Outcome(
+                    "violation",
+                    cls="nondeterministic-output",
+                    message=f"script {i} has {len(variants)} different outputs: " + "; ".join(f"{d[:10]} ({lab})" for d, lab in variants[:3]),
+                    faults={"hash_seed": len(case["hash_seeds"]), "call_interleaving": len(case["histories"]) - 1},
+                    detail={"script": case["scripts"][int(i)]},
+                )
+        accepted = all(not next(iter(v)).startswith("!") for v in seen.values())
+        return Outcome(
+            "ok", digest=sha("".join(case["scripts"]))[:16], nontrivial=accepted,
+            faults={"hash_seed": len(case["hash_seeds"]), "call_interleaving": len(case["histories"]) - 1},
+            probes={"scripts": len(case["scripts"]), "interpreters": runs},
+        )
+
+    def shrink_candidates(self, case: dict) -> Iterable[dict]:
+        n = len(case["scripts"])
+        if n > 1:
+            for i in range(n):
+                c = copy.deepcopy(case)
+                c["scripts"] = [case["scripts"][i]]
+                c["histories"] = [[["both", 0]], [["parse", 0], ["emit", 0], ["emit", 0], ["both", 0]]]
+                yield c
+        if len(case["hash_seeds"]) > 2:
+            for keep in (case["hash_seeds"][:2], case["hash_seeds"][:4], case["hash_seeds"][len(case["hash_seeds"]) // 2 :]):
+                c = copy.deepcopy(case)
+                c["hash_seeds"] = list(keep)
+                yield c
+        if n == 1:
+            lines = case["scripts"][0].splitlines()
+            from dst.engines.e1_diff import _line_deletions
+
+            for cand in _line_deletions(lines):
+                c = copy.deepcopy(case)
+                c["scripts"] = ["\n".join(cand) + "\n"]
+                yield c
